@@ -20,6 +20,11 @@ package lib
 //@   call[fmt.Errorf#3] assert refuses_only_a_payload_inside_the_headers [C05]: rx.Version == 2 && rx.Header.DataOffset < 51
 //@   call[fmt.Errorf#4] assert refuses_only_an_index_that_overlaps_the_payload [C05]: rx.Version == 2 && rx.Header.IndexOffset < wrap_u64(51 + rx.Header.DataSize)
 //@   call[fmt.Errorf#6] assert refuses_only_a_block_the_index_does_not_resolve [C05]: gerr != nil
+//@   call[fmt.Errorf#0] assert never_refuses_what_a_writing_session_finalizes [C05]: rx.Version == 2 && !laidout(rx.Header.DataOffset, rx.Header.DataSize, rx.Header.IndexOffset)
+//@   call[fmt.Errorf#1] assert never_refuses_what_a_writing_session_finalizes [C05]: rx.Version == 2 && !laidout(rx.Header.DataOffset, rx.Header.DataSize, rx.Header.IndexOffset)
+//@   call[fmt.Errorf#2] assert never_refuses_what_a_writing_session_finalizes [C05]: rx.Version == 2 && !laidout(rx.Header.DataOffset, rx.Header.DataSize, rx.Header.IndexOffset)
+//@   call[fmt.Errorf#3] assert never_refuses_what_a_writing_session_finalizes [C05]: rx.Version == 2 && !laidout(rx.Header.DataOffset, rx.Header.DataSize, rx.Header.IndexOffset)
+//@   call[fmt.Errorf#4] assert never_refuses_what_a_writing_session_finalizes [C05]: rx.Version == 2 && !laidout(rx.Header.DataOffset, rx.Header.DataSize, rx.Header.IndexOffset)
 //@   call[car.NewBlockReader#0] assert scans_the_same_file [C05]: true
 //@   call[os.Open#0] assert opens_the_same_file [C05]: arg0 == file
 //@   call[car.OpenReader#0] assert opens_the_given_file [C05]: arg0 == file
